@@ -65,6 +65,10 @@ def run(ctx) -> None:
         "EventEmitter.queue_event enqueues iff the filter is None or the event is an instance of a member of the filter",
         floor=1,
     )
+    RID = ctx.rule("C11/filter-is-part-of-the-watch-identity", "two schedules of one directory with different filters are different watches with their own emitters (shared instances with C13): otherwise the second caller gets the first caller's filter and mask", floor=4)
+    from .c13 import watch_identity
+
+    watch_identity(ctx, RID, P)
     RN = ctx.rule("C11/unfiltered-mask", "no filter -> the reader's default mask (None is passed through)", floor=1)
 
     consts = inotify_constants(P)
@@ -280,6 +284,7 @@ def run(ctx) -> None:
 
 IN = "observers/inotify.py"
 VARIANTS = [
+    dict(name="B watch key without the filter", expect="fire", rule="C11/filter-is-part-of-the-watch-identity", edits=[("observers/api.py", "        return self.path, self.is_recursive, self.event_filter", "        return self.path, self.is_recursive")]),
     dict(name="B created entry without IN_MOVE", expect="fire", rule="C11/mask-covers-need", edits=[(IN, "                event_mask |= InotifyConstants.IN_MOVE | InotifyConstants.IN_CREATE\n            elif cls is DirModifiedEvent:", "                event_mask |= InotifyConstants.IN_CREATE\n            elif cls is DirModifiedEvent:")]),
     dict(name="B dir-modified entry without IN_CLOSE_WRITE", expect="fire", rule="C11/mask-covers-need", edits=[(IN, "                    | InotifyConstants.IN_DELETE\n                    | InotifyConstants.IN_CLOSE_WRITE\n", "                    | InotifyConstants.IN_DELETE\n")]),
     dict(name="B deleted entry without moves (pre-fix)", expect="fire", rule="C11/mask-covers-need", edits=[(IN, "event_mask |= InotifyConstants.IN_DELETE | InotifyConstants.IN_MOVE", "event_mask |= InotifyConstants.IN_DELETE")]),
